@@ -33,7 +33,7 @@ case "$ID" in
     export VW_386_EXE="$BUILD/vw-$ID-386" ;;
 esac
 case "$ID" in
-  C09|C11|C12)
+  C09|C11|C12|C17)
     if ! go build -race -tags verif -o "$BUILD/vw-$ID-race" ./cmd/vw >>"$LOG" 2>&1; then
       echo "BUILD-FAILED (race) property=$ID (see $LOG)"; tail -20 "$LOG"; exit 3
     fi
